@@ -4,6 +4,7 @@ import (
 	"bytes"
 	"fmt"
 	"go/ast"
+	"go/constant"
 	"go/printer"
 	"go/token"
 	"go/types"
@@ -536,6 +537,9 @@ func checkC05Rest(c *core.Ctx) {
 		}
 	}
 
+	r9 := c.Rule("R5.9", "T", "DecodeFromBytes reads no integer/bool field of its receiver before storing it in the same call")
+	staleFieldReads(c, r9)
+
 	// ---- R5.8: the parser's Truncated flag is reset on every path before anything is decoded
 	r8 := c.Rule("R5.8", "T", "DecodeLayers resets Truncated before any decoding call on every path")
 	if dl := p.Func("", "DecodingLayerParser.DecodeLayers"); dl == nil {
@@ -754,6 +758,13 @@ func signedIndexRule(c *core.Ctx, r *core.Rule, want func(*ssa.Function) bool) {
 			}
 			// exported entry point or method of an exported type
 			lower := false
+			upperStrict, upperWeak := false, false
+			isLenOfS := func(v ssa.Value) bool {
+				if a, ok := core.IsLen(v); ok {
+					return a == ia.X || core.StripConv(a) == core.StripConv(ia.X)
+				}
+				return false
+			}
 			for _, dc := range core.DomConds(ins.Block()) {
 				bo, ok := dc.V.(*ssa.BinOp)
 				if !ok {
@@ -780,6 +791,23 @@ func signedIndexRule(c *core.Ctx, r *core.Rule, want func(*ssa.Function) bool) {
 						lower = true
 					}
 				}
+				// upper side against len of the indexed slice
+				if x == idx && isLenOfS(bo.Y) {
+					switch op {
+					case token.LSS:
+						upperStrict = true
+					case token.LEQ:
+						upperWeak = true
+					}
+				}
+				if y == idx && isLenOfS(bo.X) {
+					switch op {
+					case token.GTR:
+						upperStrict = true
+					case token.GEQ:
+						upperWeak = true
+					}
+				}
 				if y == idx {
 					if k, ok := core.ConstInt(x); ok && ((op == token.LEQ && k >= 0) || (op == token.LSS && k >= -1)) {
 						lower = true
@@ -793,7 +821,9 @@ func signedIndexRule(c *core.Ctx, r *core.Rule, want func(*ssa.Function) bool) {
 				}
 			}
 			key := core.FnKey(fn) + "/index-by:" + strings.ReplaceAll(src, " ", "-")
-			if lower {
+			if lower && upperWeak && !upperStrict {
+				r.Violate(key+"/upper", p.InstrPos(ins), "the index is compared with the length of the slice non-strictly (index <= len): the value len(slice) itself passes the test and panics with index out of range (a layer type one past the largest registered one)", nil)
+			} else if lower {
 				r.OK(key, p.InstrPos(ins), "lower bound checked")
 			} else {
 				r.Violate(key, p.InstrPos(ins), "slice indexed by "+src+" of a signed type with no dominating lower-bound check: a negative (legal, user-defined) layer type panics with index out of range", nil)
@@ -893,4 +923,280 @@ func chainTerm(v ssa.Value, self ssa.Value) string {
 		break
 	}
 	return "?"
+}
+
+// staleFieldReads (R5.9): DecodeFromBytes does not read an integer or bool
+// field of its receiver (or of a struct embedded in it by value) before it
+// has stored that field in the same call — the value would be the previous
+// packet's.  Forward must-assigned dataflow over field paths; loads of paths
+// not yet assigned on every path are reported.
+func staleFieldReads(c *core.Ctx, r *core.Rule) {
+	p := c.P
+	roots := p.Roots()
+	nLoads := 0
+	for _, d := range roots.Dec {
+		fn := d.Fn
+		if d.Kind != "DecodeFromBytes" || fn.Signature.Recv() == nil || len(fn.Blocks) == 0 {
+			continue
+		}
+		// must-assigned sets per block (intersection over predecessors)
+		in := map[*ssa.BasicBlock]map[string]bool{}
+		out := map[*ssa.BasicBlock]map[string]bool{}
+		all := map[string]bool{}
+		pathOf := func(addr ssa.Value) string {
+			pth, ok := core.RecvFieldAddrPath(fn, addr)
+			if !ok {
+				return ""
+			}
+			return pth
+		}
+		core.Instrs(fn, func(ins ssa.Instruction) {
+			if st, ok := ins.(*ssa.Store); ok {
+				if pth := pathOf(st.Addr); pth != "" {
+					all[pth] = true
+				}
+			}
+			if cl, ok := ins.(*ssa.Call); ok && cl.Call.StaticCallee() != nil && cl.Call.StaticCallee().Signature.Recv() != nil && len(cl.Call.Args) > 0 {
+				if pth := pathOf(cl.Call.Args[0]); pth != "" {
+					all[pth] = true
+				}
+			}
+		})
+		covered := func(set map[string]bool, pth string) bool {
+			if set[pth] {
+				return true
+			}
+			for i := len(pth) - 1; i > 0; i-- {
+				if pth[i] == '.' && set[pth[:i]] {
+					return true
+				}
+			}
+			return false
+		}
+		transfer := func(b *ssa.BasicBlock, s map[string]bool, visit func(ld *ssa.UnOp, pth string, assigned bool)) map[string]bool {
+			cur := map[string]bool{}
+			for k := range s {
+				cur[k] = true
+			}
+			for _, ins := range b.Instrs {
+				switch x := ins.(type) {
+				case *ssa.UnOp:
+					if x.Op == token.MUL && visit != nil {
+						if pth := pathOf(x.X); pth != "" {
+							visit(x, pth, covered(cur, pth))
+						}
+					}
+				case *ssa.Store:
+					if pth := pathOf(x.Addr); pth != "" {
+						cur[pth] = true
+					}
+				case *ssa.Call:
+					// a method of the receiver may assign anything: treat every stored path as assigned afterwards
+					if f := x.Call.StaticCallee(); f != nil && len(x.Call.Args) > 0 {
+						if x.Call.Args[0] == ssa.Value(fn.Params[0]) {
+							for k := range all {
+								cur[k] = true
+							}
+						} else if pth := pathOf(x.Call.Args[0]); pth != "" && f.Signature.Recv() != nil {
+							// a method of a struct embedded by value (ipv6.hbh.DecodeFromBytes): it decodes that sub-object
+							cur[pth] = true
+						}
+					}
+				}
+			}
+			return cur
+		}
+		for changed, iter := true, 0; changed && iter < 30; iter++ {
+			changed = false
+			for _, b := range fn.Blocks {
+				var s map[string]bool
+				if b == fn.Blocks[0] {
+					s = map[string]bool{}
+				} else {
+					first := true
+					for _, pr := range b.Preds {
+						o, ok := out[pr]
+						if !ok {
+							continue
+						}
+						if first {
+							s = map[string]bool{}
+							for k := range o {
+								s[k] = true
+							}
+							first = false
+						} else {
+							for k := range s {
+								if !o[k] {
+									delete(s, k)
+								}
+							}
+						}
+					}
+					if s == nil {
+						continue
+					}
+				}
+				in[b] = s
+				o := transfer(b, s, nil)
+				if prev, ok := out[b]; !ok || len(prev) != len(o) {
+					out[b] = o
+					changed = true
+				}
+			}
+		}
+		k := 0
+		for _, b := range fn.Blocks {
+			s, ok := in[b]
+			if !ok {
+				continue
+			}
+			transfer(b, s, func(ld *ssa.UnOp, pth string, assigned bool) {
+				bt, ok := ld.Type().Underlying().(*types.Basic)
+				if !ok || (bt.Info()&types.IsInteger == 0 && bt.Kind() != types.Bool) {
+					return
+				}
+				if !covered(all, pth) {
+					return // never stored by this decoder: configuration, not decoded state
+				}
+				nLoads++
+				if assigned {
+					return
+				}
+				if flagImpliesAssigned(fn, ld, pth, pathOf) {
+					return
+				}
+				k++
+				r.Violate(fmt.Sprintf("%s/stale-read:%s#%d", core.FnKey(fn), pth, k), p.InstrPos(ld), "field "+pth+" is read here although on some path this call has not stored it yet (it is only assigned under a condition): the value is the one an earlier packet left in the layer object, so decoding a sequence of packets into the same object differs from decoding into fresh ones (and can push a slice bound out of range)", nil)
+			})
+		}
+	}
+	c.Counts["decoder_int_field_loads"] = nLoads
+	if nLoads >= 100 {
+		r.OK("decode/field-loads-after-store", "", fmt.Sprintf("%d loads of decoded integer/bool receiver fields all follow a store in the same call (or are implied by a flag stored with it)", nLoads))
+	}
+	if nLoads < 100 {
+		r.Missing("decode/field loads", fmt.Sprintf("only %d loads of decoded integer fields found", nLoads))
+	}
+}
+
+// flagImpliesAssigned recognises the decoder idiom "if l.Flag { … l.F = … }
+// … if l.Flag && l.F …": the load of F is dominated by the v-edge of a test
+// of a bool field G of the receiver, every store to G in the function stores
+// a constant, and from every store G=v the load can only be reached through a
+// store to F.
+func flagImpliesAssigned(fn *ssa.Function, ld *ssa.UnOp, fpath string, pathOf func(ssa.Value) string) bool {
+	lb := ld.Block()
+	for d := lb.Idom(); d != nil; d = d.Idom() {
+		iff, ok := d.Instrs[len(d.Instrs)-1].(*ssa.If)
+		if !ok {
+			continue
+		}
+		cond := iff.Cond
+		pol := true
+		for {
+			if u, ok := cond.(*ssa.UnOp); ok && u.Op == token.NOT {
+				cond = u.X
+				pol = !pol
+				continue
+			}
+			break
+		}
+		gl, ok := cond.(*ssa.UnOp)
+		if !ok || gl.Op != token.MUL {
+			continue
+		}
+		g := pathOf(gl.X)
+		if g == "" || g == fpath {
+			continue
+		}
+		var v bool
+		switch {
+		case len(d.Succs[0].Preds) == 1 && d.Succs[0].Dominates(lb) || d.Succs[0] == lb && len(lb.Preds) == 1:
+			v = pol
+		case len(d.Succs[1].Preds) == 1 && d.Succs[1].Dominates(lb) || d.Succs[1] == lb && len(lb.Preds) == 1:
+			v = !pol
+		default:
+			continue
+		}
+		// no store to G between its load and the branch is assumed (the load feeds the branch directly)
+		okAll, seen := true, false
+		core.Instrs(fn, func(ins ssa.Instruction) {
+			st, ok := ins.(*ssa.Store)
+			if !ok || pathOf(st.Addr) != g {
+				return
+			}
+			k, isK := st.Val.(*ssa.Const)
+			if !isK || k.Value == nil || k.Value.Kind() != constant.Bool {
+				okAll = false
+				return
+			}
+			if constant.BoolVal(k.Value) != v {
+				return
+			}
+			seen = true
+			if reachesWithoutStore(st, ld, fpath, pathOf) {
+				okAll = false
+			}
+		})
+		if okAll && seen {
+			return true
+		}
+	}
+	return false
+}
+
+// reachesWithoutStore reports whether the load can be reached from the
+// instruction after `from` along a path that stores nothing to fpath.
+func reachesWithoutStore(from ssa.Instruction, ld *ssa.UnOp, fpath string, pathOf func(ssa.Value) string) bool {
+	storesF := func(ins ssa.Instruction) bool {
+		st, ok := ins.(*ssa.Store)
+		if !ok {
+			return false
+		}
+		p := pathOf(st.Addr)
+		return p == fpath || (p != "" && strings.HasPrefix(fpath, p+"."))
+	}
+	scan := func(b *ssa.BasicBlock, start int) (hit, blocked bool) {
+		for i := start; i < len(b.Instrs); i++ {
+			if b.Instrs[i] == ssa.Instruction(ld) {
+				return true, false
+			}
+			if storesF(b.Instrs[i]) {
+				return false, true
+			}
+		}
+		return false, false
+	}
+	b0 := from.Block()
+	idx := 0
+	for i, ins := range b0.Instrs {
+		if ins == from {
+			idx = i + 1
+		}
+	}
+	if hit, blocked := scan(b0, idx); hit {
+		return true
+	} else if blocked {
+		return false
+	}
+	seen := map[*ssa.BasicBlock]bool{}
+	work := append([]*ssa.BasicBlock{}, b0.Succs...)
+	for len(work) > 0 {
+		b := work[len(work)-1]
+		work = work[:len(work)-1]
+		if seen[b] {
+			continue
+		}
+		seen[b] = true
+		hit, blocked := scan(b, 0)
+		if hit {
+			return true
+		}
+		if blocked {
+			continue
+		}
+		work = append(work, b.Succs...)
+	}
+	return false
 }
